@@ -19,9 +19,11 @@
   resolveIncludePaths) agree on the target; the environment variables LEDGER_FILE /
   HLEDGER_JOURNAL are unset; no file exceeds the size limit.
 
-  Go's map iteration order is an explicit argument `σ` (a priority list: the paths listed
-  in `σ` first, in that order, then the others): `init` iterates `resolved.Files`,
-  `addMissingReachable` iterates the reachable set.  Theorems hold for every `σ`.
+  The code iterates Go maps in sorted key order wherever the order could matter
+  (buildIndexFromResolvedLocked, addMissingReachableLocked); `removeUnreachableLocked`
+  iterates `fileIndexes` in map order, modelled by the association list's order (the
+  result does not depend on it: HL.Lemmas.Refresh.removeUnreachable_spec holds for it and
+  determines the state up to the order of map entries).
 
   `Cfg.fixT` / `Cfg.fixG` select the pinned code (`false`) or the code repaired by
   repo_patches/fix-template-loss.diff / fix-stale-include-graph.diff (`true`);
@@ -58,10 +60,6 @@ def removeString (vs : List String) (t : String) : List String := vs.filter (· 
 
 /-- `addString`. -/
 def addString (vs : List String) (t : String) : List String := if t ∈ vs then vs else vs ++ [t]
-
-/-- iterate `xs` in the order given by the priority list `σ`. -/
-def orderBy (σ xs : List String) : List String :=
-  σ.filter (· ∈ xs) |> dedup |> fun pre => pre ++ xs.filter (· ∉ pre)
 
 /-! ### Root selection -/
 
@@ -175,14 +173,13 @@ def removeUnreachable (cfg : Cfg) (w : WS) (reachable : List String) : WS :=
              order := if w.hasResolved then removeString w.order path else w.order }) w
 
 /-- `addMissingReachableLocked`. -/
-def addMissingReachable (cfg : Cfg) (σ : List String) (fs : FS) (w : WS)
-    (reachable : List String) : WS × Bool :=
-  let r := (orderBy σ reachable).foldl (fun (wa : WS × Bool) path =>
-    let w := wa.1
-    if (w.idx.files.get path).isSome then wa else
+def addMissingReachable (cfg : Cfg) (fs : FS) (w : WS) (reachable : List String) : WS × Bool :=
+  let missing := isort (reachable.filter fun p => (w.idx.files.get p).isNone)
+  let r := missing.foldl (fun (wa : WS × Bool) path =>
     match fs.get path with
     | none => wa
     | some c =>
+      let w := wa.1
       let fi := mkFileIdx path c
       let w := { w with idx := setFileIndex cfg.fixT w.idx path fi }
       let w := updateIncludeEdges w path [] fi.includes
@@ -191,22 +188,22 @@ def addMissingReachable (cfg : Cfg) (σ : List String) (fs : FS) (w : WS)
   if r.2 then (clearCaches r.1, true) else r
 
 /-- the loop of `refreshIncludeTreeLocked`. -/
-def refreshF (cfg : Cfg) (σ : List String) (fs : FS) : Nat → WS → WS
+def refreshF (cfg : Cfg) (fs : FS) : Nat → WS → WS
   | 0, w => w
   | n+1, w =>
     let reachable := computeReachable w
     let w := removeUnreachable cfg w reachable
-    let r := addMissingReachable cfg σ fs w reachable
-    if r.2 then refreshF cfg σ fs n r.1 else r.1
+    let r := addMissingReachable cfg fs w reachable
+    if r.2 then refreshF cfg fs n r.1 else r.1
 
 /-- `refreshIncludeTreeLocked`: every round but the last indexes at least one more file. -/
-def refreshIncludeTree (cfg : Cfg) (σ : List String) (fs : FS) (w : WS) : WS :=
-  if w.root = "" then w else refreshF cfg σ fs (fs.length + 2) w
+def refreshIncludeTree (cfg : Cfg) (fs : FS) (w : WS) : WS :=
+  if w.root = "" then w else refreshF cfg fs (fs.length + 2) w
 
 /-! ### UpdateFile, Initialize -/
 
 /-- `UpdateFile(path, content)`; `fs` is the disk at the time of the call. -/
-def updateFile (cfg : Cfg) (σ : List String) (fs : FS) (w : WS) (path : String) (c : Contrib) : WS :=
+def updateFile (cfg : Cfg) (fs : FS) (w : WS) (path : String) (c : Contrib) : WS :=
   if path = "" then w else
   if w.root = "" then w else
   if !isWorkspaceFile w path then w else
@@ -218,10 +215,10 @@ def updateFile (cfg : Cfg) (σ : List String) (fs : FS) (w : WS) (path : String)
   let w := updateIncludeEdges w path oldIncs fi.includes
   let w := updateResolved w path c
   let w := clearCaches w
-  if oldIncs ≠ fi.includes then refreshIncludeTree cfg σ fs w else w
+  if oldIncs ≠ fi.includes then refreshIncludeTree cfg fs w else w
 
 /-- `buildIndexFromResolvedLocked`. -/
-def buildIndexFromResolved (cfg : Cfg) (σ : List String) (w : WS) : WS :=
+def buildIndexFromResolved (cfg : Cfg) (w : WS) : WS :=
   match w.primary with
   | none => w
   | some c =>
@@ -230,13 +227,13 @@ def buildIndexFromResolved (cfg : Cfg) (σ : List String) (w : WS) : WS :=
       let w := { w with idx := setFileIndex cfg.fixT w.idx path fi }
       updateIncludeEdges w path [] fi.includes
     let w := add w w.root c
-    (orderBy σ w.rfiles.keys).foldl (fun w path =>
+    (isort w.rfiles.keys).foldl (fun w path =>
       match w.rfiles.get path with
       | some c => add w path c
       | none => w) w
 
 /-- `NewWorkspace` + `Initialize` with a fresh loader on the directory `fs`. -/
-def init (cfg : Cfg) (σ : List String) (fs : FS) : WS :=
+def init (cfg : Cfg) (fs : FS) : WS :=
   let (root, w) := findRootJournal fs {}
   let w := { w with root := root }
   let w := if cfg.fixG then { w with incG := [], revG := [] } else w
@@ -245,7 +242,7 @@ def init (cfg : Cfg) (σ : List String) (fs : FS) : WS :=
   | none => w
   | some c =>
     let st := load cfg.limit fs root c
-    buildIndexFromResolved cfg σ
+    buildIndexFromResolved cfg
       { w with hasResolved := true, primary := some c, rfiles := st.files, order := st.order }
 
 /-! ### Getters -/
@@ -315,8 +312,6 @@ def observe (w : WS) : View × WS :=
 structure Upd where
   path : String
   c : Contrib
-  σ1 : List String := []    -- map order met by the didChange call
-  σ2 : List String := []    -- map order met by the didSave call
   deriving Repr, Inhabited
 
 structure St where
@@ -328,17 +323,17 @@ structure St where
     still has the old one), the editor writes the file, `DidSave` (UpdateFile again).  The
     workspace is observed after each call, as diagnostics would. -/
 def step (cfg : Cfg) (s : St) (u : Upd) : St :=
-  let w := updateFile cfg u.σ1 s.fs s.w u.path u.c
+  let w := updateFile cfg s.fs s.w u.path u.c
   let w := (observe w).2
   let fs := s.fs.set u.path u.c
-  let w := updateFile cfg u.σ2 fs w u.path u.c
+  let w := updateFile cfg fs w u.path u.c
   let w := (observe w).2
   { fs := fs, w := w }
 
-def start (cfg : Cfg) (σ : List String) (fs : FS) : St :=
-  { fs := fs, w := (observe (init cfg σ fs)).2 }
+def start (cfg : Cfg) (fs : FS) : St :=
+  { fs := fs, w := (observe (init cfg fs)).2 }
 
-def run (cfg : Cfg) (σ : List String) (fs : FS) (us : List Upd) : St :=
-  us.foldl (step cfg) (start cfg σ fs)
+def run (cfg : Cfg) (fs : FS) (us : List Upd) : St :=
+  us.foldl (step cfg) (start cfg fs)
 
 end HL.Workspace
